@@ -75,7 +75,8 @@ class SendingMessage:
         self.seq = seq
         self.serializer_id = serializer_id
         annotations = annotations or {}
-        annotations_size = sum([8 + len(v) for v in annotations.values()])
+        # (a memoryview may have elements wider than one byte: it is its byte size that goes on the wire)
+        annotations_size = sum([8 + (v.nbytes if isinstance(v, memoryview) else len(v)) for v in annotations.values()])
         flags &= ~FLAGS_COMPRESSED
         if config.COMPRESSION and len(payload) > 100:
             payload = zlib.compress(payload, 4)
@@ -95,7 +96,7 @@ class SendingMessage:
         for k, v in annotations.items():
             if len(k) != 4:
                 raise errors.ProtocolError("annotation identifier must be 4 ascii characters")
-            annotation_data.append(struct.pack("!4sI", k.encode("ascii"), len(v)))
+            annotation_data.append(struct.pack("!4sI", k.encode("ascii"), v.nbytes if isinstance(v, memoryview) else len(v)))
             if not isinstance(v, (bytes, bytearray, memoryview)):
                 raise errors.ProtocolError("annotation data must be bytes, bytearray, or memoryview", type(v))
             annotation_data.append(v)    # note: annotations are not compressed by Pyro
